@@ -41,6 +41,9 @@ structure Libm where
   /-- `math.Pow(x, y)` for finite `x > 0`, `x ≠ 1` and finite non-integral `y ≠ ±0.5` -/
   pow : F64 → F64 → F64
 
+/-- Some behaviour of the libm-backed functions, for concrete examples (every theorem is for all `L`). -/
+def libm0 : Libm := ⟨fun _ x => x, fun x _ => x⟩
+
 def zeroP : F64 := zero false
 /-- `0.5` -/
 def half : F64 := ofSM false 4602678819172646912
